@@ -329,7 +329,9 @@ def semi_singleton_metaclass(hashfunc: Callable | None = None) -> type:
             :return: A hash of the arguments.
             """
             jwargs = json.dumps(kwargs, sort_keys=True)
-            return hash((args, jwargs))
+            # the identifier itself, not its hash: distinct arguments can
+            # hash alike (hash(-1) == hash(-2)) but never compare equal
+            return (args, jwargs)
 
     class _SemiSingleton(type):
         """
